@@ -36,7 +36,19 @@ import (
 	. "github.com/evanw/esbuild/verifharness/hlib"
 )
 
-func main() { Main("c14", runC14) }
+func main() {
+	// debugging aid: C14_DETECT=<file> prints the detector's verdict for a file
+	if f := os.Getenv("C14_DETECT"); f != "" {
+		b, err := os.ReadFile(f)
+		if err != nil {
+			panic(err)
+		}
+		d, notes := DetectWithNotes(string(b))
+		fmt.Println(d, notes)
+		return
+	}
+	Main("c14", runC14)
+}
 
 // ---------- feature names ----------
 
@@ -392,6 +404,13 @@ func scenarioFor(f string, c *cfg, notes map[string]bool, code string) string {
 	case "ArraySpread":
 		if v, ok := c.Supported["array-spread"]; ok && !v && strings.Contains(code, "super(...arguments)") {
 			return "generated-super-spread"
+		}
+		return "leak"
+	case "UnicodeEscapes":
+		// the raw text of a TAGGED template cannot be re-escaped without changing
+		// strings.raw; esbuild keeps it unless template literals themselves are lowered
+		if notes["unicode-escape-in-tagged-template-raw"] && !notes["unicode-escape-elsewhere"] && !c.goOptions().UnsupportedJSFeatures.Has(compat.TemplateLiteral) {
+			return "unicode-escape-in-tagged-template-raw"
 		}
 		return "leak"
 	case "RegexpUnicodePropertyEscapes":
